@@ -8,6 +8,7 @@ pub mod util;
 pub mod regress;
 
 pub mod c03;
+pub mod c04;
 pub mod c16;
 pub mod c17;
 pub mod c18;
